@@ -100,4 +100,7 @@ def positive_controls(pid, tier, here):
 
 NOT_APPLICABLE = {}
 SOURCE_COMMITS = []   # hook commits only (none: nothing in /repo is instrumented)
-FIX_COMMITS = ["f7f8347 fix: sort_once reported acyclic graphs as CircularDependence (C12)"]
+FIX_COMMITS = ["f7f8347 fix: sort_once reported acyclic graphs as CircularDependence (C12)",
+               "acad125 fix: no-rebuild path reported the pre-restore hash of a recovered target (C18, C01)",
+               "14cd7e3 fix: losing the race for a cache entry made the rule fail (C06)",
+               "fe67da3 fix: state files were truncated in place (C11)"]
